@@ -616,10 +616,18 @@ def gen_scenario(rnd, cls, name):
                 op = AF(o, g, then=then, label=label)
             threads[t].append(op)
             if then == 'keep':
-                choices = [[AW(label)], [DR(label)], [PO(label), DR(label)], [PO(label), AW(label)], [PO(label)], []]
+                choices = [[AW(label)], [DR(label)], []]
+                if g:
+                    # a single poll is followed by another use of the future only if that poll cannot have completed it: the event
+                    # the operation waits for is then fired by the same thread, after the poll
+                    choices += [[PO(label), DR(label)], [PO(label), AW(label)], [PO(label)]]
                 if k == 'FD':
                     choices.append([WS(label)])
-                closers.append((t, op, rnd.choice(choices)))
+                cl = rnd.choice(choices)
+                if cl and cl[0]['k'] == 'poll' and len(cl) > 1:
+                    fires[:] = [(x, c) for x, c in fires if x != g]
+                    cl = [cl[0], FIRE(g)] + cl[1:] if rnd.random() < 0.8 else cl
+                closers.append((t, op, cl))
     # suspensions: one per scenario, requested and released by the same thread
     if cls == 'suspend':
         t = rnd.randrange(nthreads)
@@ -661,7 +669,10 @@ def gen_scenario(rnd, cls, name):
         if cls in ('future', 'mix', 'suspend') and rnd.random() < 0.3:
             threads[t].insert(rnd.randint(0, len(threads[t])), SPUR(g))
     if cls == 'drop':
-        threads[drop_thread].append(DROP(dropped_obj, unwinding=rnd.random() < 0.25))
+        # (an unwinding thread that drains the queue poisons every object whose operations it runs meanwhile - observation O1 of
+        #  DESIGN.md, outside the listed properties: no nested bodies on the dropped object in that case)
+        nested = any(op.get('body') for t in threads for op in t if op.get('o') == dropped_obj)
+        threads[drop_thread].append(DROP(dropped_obj, unwinding=(not nested) and rnd.random() < 0.25))
     threads = [t for t in threads if t] or [[D(1)]]
     if cls == 'block' and not any(op['k'] == 'sync' for t in threads for op in t) and rnd.random() < 0.5:
         pass
